@@ -65,7 +65,10 @@ def programs(draw):
         nev = len(tr["streams"][t]["events"])
         attrs.append([t, draw(st.integers(0, nev)), draw(st.sampled_from(["flush", "flush", "set"])), draw(st.integers(0, 50))])
     return {"trace": tr, "fill": fill, "short": draw(st.sampled_from([None, None, None, "half", "one"])),
-            "tmpdir": draw(st.integers(0, 3)) == 0, "attrs": attrs}
+            "tmpdir": draw(st.integers(0, 3)) == 0, "attrs": attrs,
+            # one program in six runs into a trace directory that already holds the (longer) streams of
+            # an earlier run with the same loom, pid and thread ids
+            "rerun": draw(st.integers(0, 5)) == 0}
 
 
 def to_script(case):
@@ -186,6 +189,22 @@ def run(case, ctx):
     d = ctx.newdir()
     try:
         env = rt.shim_env(ctx.shared["shim"], short=case["short"]) if case.get("short") else None
+        if case.get("rerun"):
+            prev = ["MODE turn"]
+            for l in lines[1:]:
+                f = l.split()
+                if f[0] == "P" or (len(f) > 1 and f[1] in ("init", "require", "cpu")):
+                    if l != "P fini":
+                        prev.append(l)
+            for i, s_ in enumerate(tr["streams"]):
+                prev.append("T%d ev %s now %s" % (i, rt.hx("OHx"), T.P("iiQ", -1, -1, 0)))
+                prev += ["T%d ev %s now" % (i, rt.hx("OB."))] * 3000
+                prev += ["T%d ev %s now" % (i, rt.hx("OHe")), "T%d flush" % i, "T%d free" % i]
+            prev.append("P fini")
+            r0 = rt.run_script(ctx.shared["rtdrv"], prev, os.path.join(d, "prev"), tmpdir_mode=case.get("tmpdir", False),
+                               tracedir=os.path.join(d, "trace"))
+            if r0.res.kind != "ok":
+                raise Violation("driver did not finish (earlier run): %s" % r0.res.brief())
         rr = rt.run_script(ctx.shared["rtdrv"], lines, d, env=env, tmpdir_mode=case.get("tmpdir", False))
         if rr.res.kind != "ok":
             raise Violation("driver did not finish: %s" % rr.res.brief())
@@ -217,7 +236,7 @@ def run(case, ctx):
         if not r.ok:
             raise Violation("ovniemu -l rejects the trace of a conformant program: %s" % r.brief())
         return {"nt": flushed, "cls": ["threads:%d" % len(tr["streams"]), "auto-flush" if flushed else "no-auto-flush",
-                                       "tmpdir" if case.get("tmpdir") else "direct"],
+                                       "tmpdir" if case.get("tmpdir") else "direct"] + (["re-run"] if case.get("rerun") else []),
                 "sample": {"script_head": lines[:25], "nlines": len(lines)}}
     finally:
         ctx.rmdir(d)
